@@ -59,7 +59,9 @@ class SourceFile(object):
 
     @staticmethod
     def write_binary_contents(filename, buffer):
+        # Convert first: a value that is not a byte must not leave a truncated file behind
+        contents = bytearray(buffer)
         with open(filename, "wb") as outfile:
-            outfile.write(bytearray(buffer))
+            outfile.write(contents)
 
 # E N D   O F   F I L E #######################################################
